@@ -651,9 +651,16 @@ pub fn gen_trait(t: &mut Tape, name: &str, cfg: &TraitGenCfg) -> TraitSrc {
     let mut where_ = String::new();
     let mut supertraits = String::new();
     if cfg.generics {
-        match t.weighted(&[6, 2, 1, 1, 1, 1]) {
+        match t.weighted(&[6, 2, 1, 1, 1, 1, 1, 1, 1]) {
             0 => {}
             1 => generics = "<U>".into(),
+            // defaults belong to the trait declaration (and are not allowed on the generated impl)
+            6 => generics = "<U = u32>".into(),
+            7 => generics = "<U: Clone = a::Def, const K: usize = 3>".into(),
+            8 => {
+                generics = "<U: ?Sized>".into();
+                where_ = " where U: ::core::fmt::Debug".into();
+            }
             2 => {
                 generics = "<U: Clone, const K: usize>".into();
             }
